@@ -30,7 +30,9 @@ Definition value_eqb (a b : value) : bool :=
   end.
 Definition ditem_eqb (a b : ditem) : bool :=
   opt_str_eqb (i_field a) (i_field b) && list_eqb value_eqb (i_vals a) (i_vals b) &&
-  Bool.eqb (i_all a) (i_all b) && Bool.eqb (i_neg a) (i_neg b).
+  Bool.eqb (i_all a) (i_all b) && Bool.eqb (i_neg a) (i_neg b) &&
+  (* applied_processing_items is a set *)
+  forallb (fun x => mem_str x (i_applied b)) (i_applied a) && forallb (fun x => mem_str x (i_applied a)) (i_applied b).
 Fixpoint det_eqb (a b : det) : bool :=
   match a, b with
   | DI x, DI y => ditem_eqb x y
